@@ -559,6 +559,52 @@ def self_baseline_variants(res):
         shutil.rmtree(d, ignore_errors=True)
 
 
+def chained_baselines(res):
+    """A report written by a `-b` run is itself used as the next baseline (what a CI job that keeps `latest.json` does).  Such a report nests, under every
+    listed finding, the `candidates` it might correspond to; the baseline is what the report LISTS (its `results`), each once (seeded change C07-m9 also
+    loaded the nested candidates: an identity listed n times counted n + n*n times, and a third occurrence was withheld).
+    Oracle: per step, identity-wise count comparison against the `results` of the previous step's report."""
+    d = tempfile.mkdtemp(prefix="bverif_c07c_")
+    try:
+        p = os.path.join(d, "mod.py")
+        chains = [["eval(a)\n", "eval(a)\neval(a)\n", "eval(a)\neval(a)\neval(a)\n", "eval(a)\neval(a)\neval(a)\n", "eval(a)\n"],
+                  ["import pickle\n", "import pickle\nassert x\nassert x\n", "import pickle\nassert x\nassert x\nassert x\nexec(c)\n", "assert x\nassert x\nassert x\nassert x\nexec(c)\nexec(c)\n"],
+                  ["password = 'pw'\n", "password = 'pw'\nif c:\n    password = 'pw'\n", "password = 'pw'\nif c:\n    password = 'pw'\nelse:\n    password = 'pw'\n    password = 'pw'\n"]]
+        for ci, chain in enumerate(chains):
+            prev = None        # path of the previous report
+            prev_results = []
+            for si, src in enumerate(chain):
+                with open(p, "w") as f:
+                    f.write(src)
+                linecache.clearcache()
+                rep = os.path.join(d, "rep_%d_%d.json" % (ci, si))
+                argv = ["-f", "json", "-o", rep] + (["-b", prev] if prev else []) + [p]
+                r = C.run_cli(argv)
+                res.case(("chained-baseline", ci, si), si > 0)
+                res.count("chained-baseline")
+                try:
+                    listed = json.load(open(rep))["results"]
+                except Exception:
+                    res.violation("no report in a chain of baseline runs", {"chain": chain[:si + 1], "step": si, "exit": r["exit"], "exc": r["exc"]})
+                    break
+                # what is in the file now, found without a baseline
+                linecache.clearcache()
+                r_all = C.run_cli(["-f", "json", p])
+                now = json.loads(r_all["out"])["results"]
+                ident = lambda x: (os.path.basename(x["filename"]), x["test_id"], x["issue_text"], x["issue_severity"], x["issue_confidence"])
+                cn = collections.Counter(ident(x) for x in now)
+                cb = collections.Counter(ident(x) for x in prev_results)
+                expect = sorted(ident(x) for x in now if cn[ident(x)] > cb.get(ident(x), 0)) if prev else sorted(ident(x) for x in now)
+                got = sorted(ident(x) for x in listed)
+                if got != expect or (r["exit"] != (1 if expect else 0)):
+                    res.violation("a report written by a -b run, used as the next baseline, withholds findings it does not account for (or reports accounted ones)",
+                                  {"chain (versions of one file; each scanned with the previous step's report as baseline)": chain[:si + 1], "step": si,
+                                   "previous_report_lists": sorted(cb.items()), "now": sorted(cn.items()), "expected_reported": expect, "reported": got, "exit": r["exit"]})
+                prev, prev_results = rep, listed
+    finally:
+        shutil.rmtree(d, ignore_errors=True)
+
+
 def run(res, ctx):
     thorough = res.tier == "thorough"
     kinds = KINDS[res.tier]
@@ -585,6 +631,7 @@ def run(res, ctx):
             return replay(res, chk, ctx["replay"])
         _run(res, ctx, chk, world, kinds, thr, fmts, thorough)
         self_baseline_variants(res)
+        chained_baselines(res)
         if unknown_fmts:
             res.notes.append("baseline-capable formats without a parser here (only exit status checked): %s" % unknown_fmts)
     finally:
